@@ -68,19 +68,30 @@ out := outer(5)`, "(main)", func(sel int64, c bool) []int {
 	{"dead-code-shift", `f := func(v) {
   if c { return 0; v = 1; v = 2 }
   for i := 0; i < 2; i++ { if i == 5 { continue; v = 3 } }
-  if sel == 0 { return v + "s" - 1 }
+  if sel == 0 {
+    w := v + "s"
+    return w - 1
+  }
+  if sel == 1 {
+    return v; v = 4; v = 5
+  }
+  x := v.k
+  if sel == 2 {
+    x = x.j + 1
+  }
   return v
   v = 9
 }
 g := func(v) {
-  return f(v) + (sel == 1 ? [1][3] + 1 : 0) + (sel == 2 ? 1 / (v - v) : 0)
+  r := f(v)
+  return r
 }
 out := g(4)`, "(main)", func(sel int64, c bool) []int {
 		switch {
 		case sel == 0 && !c:
-			return []int{4, 9, 11}
-		case sel == 1:
-			return nil // [1][3] is undefined; undefined + 1 fails: see expectation below
+			return []int{5, 19, 22}
+		case sel == 2 && !c:
+			return []int{11, 19, 22}
 		}
 		return nil
 	}},
